@@ -639,7 +639,7 @@ static void do_op(struct op *p)
 		is->flags = (unsigned)p->a[2];
 		is->cookie = cookie_of(K_SIG, id);
 		is->handler = sig_cb;
-		tr("\"e\":\"SigApiB\",\"o\":%d}", id);
+		tr("\"e\":\"SigApiB\",\"op\":\"reg\",\"o\":%d}", id);
 		r = iv_signal_register(is);
 		if (r == 0) o->reg = 1;
 		o->osfd = me;	/* registering thread */
@@ -650,7 +650,7 @@ static void do_op(struct op *p)
 		OBJ(K_SIG);
 		if (!o->reg || o->osfd != me) { skip(n, id); goto out; }
 		int signum = ((struct iv_signal *)o->mem)->signum;
-		tr("\"e\":\"SigApiB\",\"o\":%d}", id);
+		tr("\"e\":\"SigApiB\",\"op\":\"unreg\",\"o\":%d}", id);
 		iv_signal_unregister(o->mem);
 		o->reg = 0;
 		alog(n, id, signum, 0, 0, 0, 0);
